@@ -1,12 +1,16 @@
 import RichModel.Lemmas.Ratio
+import RichModel.Props.C01
 /-!
 # C09 — measurements are sound bounds on what rendering produces
 
-This file: the part every renderable shares — `Measurement.get` normalises and clamps whatever
-`__rich_measure__` returns.  The per-renderable soundness theorems are added by the layout layer.
+First the part every renderable shares — `Measurement.get` normalises and clamps whatever `__rich_measure__` returns — then, on the
+composition model (`Model/Layout.lean`, shared with C01): the measurement of every renderable tree is normal; rendering at the
+reported maximum, or at the reported minimum, produces no line wider than that value (for values at or above the structural
+minimum, inside the domain of C01 — both are corollaries of `C01.render_fits`, which holds at EVERY width from the structural
+minimum up); the text measurement is "widest word / widest line" and a text given its maximum is not wrapped.
 -/
 namespace RichModel.C09
-open RichModel
+open RichModel RichModel.Frames RichModel.Layout
 
 /-- For every renderable (whatever its `__rich_measure__` returns, or if it has none) and every
 available width, the reported measurement satisfies `0 ≤ minimum ≤ maximum ≤ max(available, 0)`. -/
@@ -24,5 +28,89 @@ theorem normalize_idempotent (m : Measurement) : m.normalize.normalize = m.norma
 
 example : Measurement.getPost 10 (some ⟨-3, 50⟩) = ⟨0, 10⟩ := by decide
 example : Measurement.getPost 0 (some ⟨1, 5⟩) = ⟨0, 0⟩ := by decide
+
+/-! ## every renderable tree -/
+
+/-- **measure_normal.**  `Measurement.get(console, tree, available)` of every renderable tree — text, every frame, tables, columns,
+trees, groups, objects without `__rich_measure__` (`opaque`), objects cast through `__rich__` (`cast`) — at every available width
+(any Python int, including 0, negatives and widths below the content's needs): `0 ≤ minimum ≤ maximum ≤ max(available, 0)`. -/
+theorem measure_normal (cfg : Cfg) (r : R) (available : Int) :
+    0 ≤ (measureGet cfg r available).minimum ∧ (measureGet cfg r available).minimum ≤ (measureGet cfg r available).maximum ∧
+      (measureGet cfg r available).maximum ≤ max available 0 :=
+  measureGet_normal cfg r available
+
+/-- **render_at_max_fits.**  Rendering at the reported maximum never produces a line wider than that value, when the value is at or
+above the structural minimum (and the tree is in C01's domain at that width). -/
+theorem render_at_max_fits (cfg : Cfg) (ok : CfgOk cfg) (r : R) (o : Opts) (available : Int)
+    (hs : (smin cfg.cw r : Int) ≤ (measureGet cfg r available).maximum)
+    (hd : Dom cfg r o (measureGet cfg r available).maximum.toNat) :
+    ∀ l ∈ renderedLines cfg r o (measureGet cfg r available).maximum,
+      (lineLength cfg.cw l : Int) ≤ (measureGet cfg r available).maximum := by
+  generalize (measureGet cfg r available).maximum = m at hs hd
+  have hm : m = ((m.toNat : Nat) : Int) := by omega
+  intro l hl
+  rw [hm] at hl
+  have := C01.rendered_lines_fit cfg ok r o m.toNat (by omega) hd l hl
+  omega
+
+/-- **render_at_min_fits.**  The same at the reported minimum. -/
+theorem render_at_min_fits (cfg : Cfg) (ok : CfgOk cfg) (r : R) (o : Opts) (available : Int)
+    (hs : (smin cfg.cw r : Int) ≤ (measureGet cfg r available).minimum)
+    (hd : Dom cfg r o (measureGet cfg r available).minimum.toNat) :
+    ∀ l ∈ renderedLines cfg r o (measureGet cfg r available).minimum,
+      (lineLength cfg.cw l : Int) ≤ (measureGet cfg r available).minimum := by
+  generalize (measureGet cfg r available).minimum = m at hs hd
+  have hm : m = ((m.toNat : Nat) : Int) := by omega
+  intro l hl
+  rw [hm] at hl
+  have := C01.rendered_lines_fit cfg ok r o m.toNat (by omega) hd l hl
+  omega
+
+/-! ## text -/
+
+/-- **text_measure_spec.**  For a text that is not all whitespace, `Text.__rich_measure__` reports: as maximum the width of its
+widest line (every line-break separated piece is at most that wide and one of them is exactly that wide), as minimum the width of
+its widest word (likewise for the whitespace separated pieces); and `minimum ≤ maximum`. -/
+theorem text_measure_spec (cw : Char → Nat) (t : T) (hne : t.plain.all pyIsSpace = false) :
+    (∀ p ∈ splitOnP isLineBreak t.plain [], (cellLen cw p : Int) ≤ (textRichMeasure cw t).maximum) ∧
+    (∃ p ∈ splitOnP isLineBreak t.plain [], (cellLen cw p : Int) = (textRichMeasure cw t).maximum) ∧
+    (∀ p ∈ splitOnP pyIsSpace t.plain [], (cellLen cw p : Int) ≤ (textRichMeasure cw t).minimum) ∧
+    (∃ p ∈ splitOnP pyIsSpace t.plain [], (cellLen cw p : Int) = (textRichMeasure cw t).minimum) ∧
+    (textRichMeasure cw t).minimum ≤ (textRichMeasure cw t).maximum :=
+  Layout.text_measure_spec cw t hne
+
+/-- **text_at_max_not_wrapped.**  A text given (at least) its measured maximum is never wrapped: `divide_line` finds no break in any
+of its paragraphs (the pieces between line feeds), folding or not — when `\n` is the only line-break character of the text
+(`str.splitlines`, which the measurement uses, also breaks at FS/GS/RS/NEL/LS/PS; `Text.wrap` does not). -/
+theorem text_at_max_not_wrapped (cw : Char → Nat) (t : T) (w : Nat) (fold : Bool)
+    (hnb : ∀ c ∈ t.plain, isLineBreak c = true → c = '\n')
+    (hw : (textRichMeasure cw t).maximum ≤ (w : Int)) :
+    ∀ p ∈ Layout.pieces t.plain, Wrap.divideLine cw p w fold = [] :=
+  Layout.text_at_max_not_wrapped cw t w fold hnb hw
+
+/-- a paragraph that fits is left alone -/
+theorem divide_line_nil_of_fits (cw : Char → Nat) (text : List Char) (w : Nat) (fold : Bool) (h : cellLen cw text ≤ w) :
+    Wrap.divideLine cw text w fold = [] :=
+  Layout.divideLine_nil_of_fits cw text w fold h
+
+/-- the executable form: the measured text of a rendered text -/
+example : textRichMeasure cwR (Text.new Variant.repaired "hello wörld\nあい x".toList [0]) = ⟨5, 11⟩ := by decide +kernel
+
+/-! ## The known finding F23 (`progressbar-no-newline`) on the measurement side -/
+
+/-- `RenderGroup(ProgressBar(width=5), Text("ccc dd"))`: the group reports (5, 6) at 9 cells available; rendered at its maximum 6
+the bar and the text share one line of 11 cells — the measurement of a group containing a `ProgressBar` is unsound. -/
+theorem known_group_with_progressbar_measure_unsound :
+    measureGet C01.wCfg (.group true [C01.wBar, C01.wText "ccc dd"]) 9 = ⟨5, 6⟩ ∧
+    (renderedLines C01.wCfg (.group true [C01.wBar, C01.wText "ccc dd"]) {} 6).map (lineLength cwR) = [11] := by decide +kernel
+
+/-- non-vacuity of `render_at_max_fits`: a table measured at 40 cells reports a maximum at or above its structural minimum and
+renders exactly that wide -/
+def exTable : R :=
+  .table { box := some 0 } [.mk {} (C01.wText "name") (C01.wText "") [C01.wText "alpha beta", C01.wText "日本"],
+                            .mk {} (C01.wText "n") (C01.wText "") [C01.wText "1", C01.wText "22"]]
+
+example : measureGet C01.wCfg exTable 40 = ⟨14, 19⟩ ∧ smin cwR exTable = 10 := by decide +kernel
+example : (renderedLines C01.wCfg exTable {} 19).map (lineLength cwR) = [19, 19, 19, 19, 19, 19] := by decide +kernel
 
 end RichModel.C09
